@@ -604,6 +604,13 @@ func (pool *hostConnPool) connect() (err error) {
 		return nil
 	}
 
+	if conn.Closed() {
+		// the connection failed after it was established but before it got here: its error
+		// handler has already run (or will run) without finding it in the pool, so adding it
+		// now would leave a dead connection in the pool that is never removed or replaced
+		return ErrConnectionClosed
+	}
+
 	pool.conns = append(pool.conns, conn)
 
 	return nil
